@@ -687,6 +687,9 @@ void World::exec_env_op(const Step& s)
             if (!c.live)
                 c.h.reset();
         FullObs before = observe();
+        const bool pure_load = check(CK_PURITY);
+        const uint64_t image_before = pure_load ? g_disk.image_hash(false) : 0;
+        const uint64_t writes_before = g_disk.lib_writes + g_disk.lib_truncates;
         Rng r(s.vseed ^ 0x5E10ADull);
         // handles to stale entities are dropped with everything else
         close_all(&r);
@@ -772,6 +775,15 @@ void World::exec_env_op(const Step& s)
         }
         probes.hit("reload_ok");
         FullObs after = observe();
+        if (pure_load)
+        {
+            // closing, database_exists / loading and observing again must not have touched the stored files
+            // (the create_or_load probe on a fresh directory writes elsewhere: only this library's files count)
+            if (g_disk.image_hash(false) != image_before && !(arg(0) & 8))
+                report("C16", "C16|load|" + fam() + "|image-changed", "close + load_database changed the stored database files");
+            (void)writes_before;
+            probes.hit("purity_load_checked");
+        }
         if (check(CK_RELOAD))
         {
             // stale handles are not carried over: compare the database-driven part
